@@ -87,3 +87,17 @@ package labelindex
 //@   ghost at call string]).EstimatedItemsToScan#1: c04ParN = res
 //@   ensures *bestEPStrategy != old(*bestEPStrategy) ==> c04ParN == 0
 //@   ensures *bestParentStrategy != old(*bestParentStrategy) ==> c04EpN == 0
+
+//@ -- C07, index side (thin): an endpoint update may be ignored as "no change" only if its parents are the same
+//@ -- profiles IN THE SAME ORDER (an inherited label comes from the first listed profile that has it); otherwise the
+//@ -- new parents are stored in the order given and the item is rescanned
+//@ ghost c07Flushed bool
+//@ func (*InheritIndex).UpdateLabels
+//@   property C07
+//@   option safety off
+//@   option callpre off
+//@   option stable []string, (*itemData).parents, []*parentData, (*parentData).id
+//@   requires idx != nil && !c07Flushed
+//@   ghost at call getOrCreateParent: check arg1 == pID
+//@   ghost at call flushUpdates: c07Flushed = true
+//@   ensures !c07Flushed ==> (old(idx.itemDataByID[id]) != nil && len(old(idx.itemDataByID[id].parents)) == len(parentIDs) && (forall i int :: 0 <= i && i < len(parentIDs) ==> old(idx.itemDataByID[id].parents[i].id) == parentIDs[i]))
